@@ -259,7 +259,7 @@ fn worker_thread(shared: Arc<Shared>, thread: usize, ops: Vec<COp>, barrier: Arc
                 COp::Put { k, extra, explicit, ttl, wait } => {
                     let key = *k as u64;
                     let token = token_of(*k, thread, index);
-                    let weight = base_weight(*k) + (*extra as i64 % 4);
+                    let weight = base_weight(*k) + *extra as i64;
                     let ttl = ttl.as_ref().map(resolve_ttl);
                     let result = match (*explicit, ttl) {
                         (true, None) => cache.put_with_weight(key, token, weight),
